@@ -337,6 +337,7 @@ class Loader:
         disk = self.disk
         st = self.stats
         path = disk.path(name)
+        reused = handle is not None and handle.read_calls > 0
         pathlike = kind == "pathlib"
         if pathlike:
             kind = "path"
@@ -412,6 +413,25 @@ class Loader:
             st["extra"]["refused_fault"] = st["extra"].get("refused_fault", 0) + 1
             return outcome, res, handle, v
         v = classify(delivered, dtype)
+        if kind == "handle" and reused:
+            # A handle that was already (partly) consumed by an earlier load.  What "the file" is for such a
+            # handle is not specified: refusing is fine; if something is returned it must be a faithful load of
+            # what was left in the stream or of the whole file (an implementation may rewind) - never anything else.
+            st["probes"]["load_from_consumed_handle"] = st["probes"].get("load_from_consumed_handle", 0) + 1
+            if outcome == "returned":
+                v_full = classify(text, dtype)
+                ok_any = False
+                for cand in (v, v_full):
+                    if cand.kind == "load":
+                        try:
+                            check_loaded(res, cand, dtype, cand.gid, None, label)
+                            ok_any = True
+                            break
+                        except Violation:
+                            pass
+                if not ok_any:
+                    raise Violation("loaded-inconsistent-file", f"{label}: returned a {tuple(res.shape)} grid from an already consumed handle that is neither the rest of the stream nor the whole file:\n{delivered}")
+            return outcome, res, handle, v
         st["extra"]["verdict_" + v.kind] = st["extra"].get("verdict_" + v.kind, 0) + 1
         if v.kind == "load":
             if outcome != "returned":
